@@ -410,7 +410,9 @@ func (r *attachRun) step(st AttachStep) string {
 			}
 		case st.G == "tick":
 			r.current.Store(-1)
+			// time passes beyond every delay; the housekeeping runs (at least) twice
 			r.srv.VerifTick("wills", time.Now().Unix()+10000000)
+			r.srv.VerifTick("wills", time.Now().Unix()+10000001)
 			return "tick"
 		case strings.HasPrefix(st.G, "pub:"):
 			r.current.Store(-1)
